@@ -258,4 +258,3 @@ func jequal(a *jv, b *jv) bool {
 	}
 	return true
 }
-
